@@ -87,12 +87,18 @@ def explicit(run: Run, env):
         params = []
         for i in range(n):
             templ = bool(d.get(("bool", f"{base}[{i}].path_template")))
-            params.append(dict(field=var.hole_for(f"{base}[{i}].field"), key=var.hole_for(f"{base}[{i}].key"),
+            params.append(dict(field=var.hole_for(f"{base}[{i}].disambiguated_field") or var.hole_for(f"{base}[{i}].field"),
+                               disamb=var.hole_for(f"{base}[{i}].disambiguated_field") is not None and var.hole_for(f"{base}[{i}].field") is None,
+                               key=var.hole_for(f"{base}[{i}].key"),
                                regex=var.hole_for(f"{base}[{i}].to_regex()"), templ=templ))
         shape_ok = all(p["field"] and p["key"] and (p["regex"] or not p["templ"]) for p in params)
         run.table(f"{tag}:holes-present", shape_ok, detail=str(params), group="routing.explicit:holes")
         if not shape_ok:
             continue
+        # "reserved-word fields read from their suffixed attribute but sent under the original name": the attribute read on the request
+        # is the disambiguated path, the header key is the routing key
+        run.table(f"{tag}:reads-the-disambiguated-attribute", all(p["disamb"] for p in params), detail=str([var.holes.get(p["field"]) for p in params]),
+                  group="routing.explicit:reads-the-disambiguated-attribute")
         m = model()
         m.hole_strings = {p["field"] for p in params}
         req0, md0 = z3.Const("request0", Ref), z3.Const("metadata0", Ref)
@@ -215,6 +221,12 @@ def stage1(run: Run):
                  ensures=["result == '.'.join(py_name(s) for s in self.raw.split('.'))"])
     m.add_contract(c)
     run.verify(m, c)
+    m.add_class("RoutingParameter", {"field": "Str", "path_template": "Str", "disambiguated_field": "Str"})
+    m.classes["FieldHeader"].update({"_fields": ["raw"], "_value_class": True})
+    cr = Contract("RoutingParameter.disambiguated_field", source=(W, "RoutingParameter.disambiguated_field"), params={"self": "RoutingParameter"}, result="Str",
+                  ensures=["result == '.'.join(py_name(s) for s in self.field.split('.'))"])
+    m.add_contract(cr)
+    run.verify(m, cr)
     # implicit routing source: "one pair for every variable of the method's primary HTTP path template"
     m.classes["FieldHeader"].update({"_fields": ["raw"], "_value_class": True})
     m.classes["Method"]["options"] = "MethodOptions"
